@@ -201,8 +201,13 @@ func runPolicyValid() int {
 				var doc2 trustpolicy.OCIDocument
 				must(json.Unmarshal(b, &doc2))
 				obs.AcceptedJSON = doc2.Validate() == nil
+				// the constructor validates the document, alone and next to a (valid) document of the other kind
 				_, cerr := verifier.NewVerifierWithOptions(nullStore{}, verifier.VerifierOptions{OCITrustPolicy: concOCI(d, salt)})
-				obs.AcceptedCtor = cerr == nil
+				_, cerr2 := verifier.NewVerifierWithOptions(nullStore{}, verifier.VerifierOptions{OCITrustPolicy: concOCI(d, salt), BlobTrustPolicy: otherKindValidBlob()})
+				obs.AcceptedCtor = cerr == nil || cerr2 == nil
+				if (cerr == nil) != (cerr2 == nil) {
+					obs.AcceptedCtor = !obs.Accepted // the two constructions disagree: report whichever deviates
+				}
 				if obs.Accepted {
 					for i := range doc.TrustPolicies {
 						l, lerr := doc.TrustPolicies[i].SignatureVerification.GetVerificationLevel()
@@ -223,7 +228,11 @@ func runPolicyValid() int {
 				must(json.Unmarshal(b, &doc2))
 				obs.AcceptedJSON = doc2.Validate() == nil
 				_, cerr := verifier.NewVerifierWithOptions(nullStore{}, verifier.VerifierOptions{BlobTrustPolicy: concBlob(d, salt)})
-				obs.AcceptedCtor = cerr == nil
+				_, cerr2 := verifier.NewVerifierWithOptions(nullStore{}, verifier.VerifierOptions{BlobTrustPolicy: concBlob(d, salt), OCITrustPolicy: otherKindValidOCI()})
+				obs.AcceptedCtor = cerr == nil || cerr2 == nil
+				if (cerr == nil) != (cerr2 == nil) {
+					obs.AcceptedCtor = !obs.Accepted
+				}
 				if obs.Accepted {
 					for i := range doc.TrustPolicies {
 						l, lerr := doc.TrustPolicies[i].SignatureVerification.GetVerificationLevel()
@@ -473,4 +482,14 @@ func presentedAny() ocispec.Descriptor {
 
 func notationVerifyOpts(ref string) notation.VerifierVerifyOptions {
 	return notation.VerifierVerifyOptions{ArtifactReference: ref, SignatureMediaType: mtJWS}
+}
+
+func otherKindValidBlob() *trustpolicy.BlobDocument {
+	return &trustpolicy.BlobDocument{Version: "1.0", TrustPolicies: []trustpolicy.BlobTrustPolicy{{Name: "valid", SignatureVerification: trustpolicy.SignatureVerification{VerificationLevel: "strict"},
+		TrustStores: []string{"ca:acme"}, TrustedIdentities: []string{"*"}}}}
+}
+
+func otherKindValidOCI() *trustpolicy.OCIDocument {
+	return &trustpolicy.OCIDocument{Version: "1.0", TrustPolicies: []trustpolicy.OCITrustPolicy{{Name: "valid", SignatureVerification: trustpolicy.SignatureVerification{VerificationLevel: "strict"},
+		TrustStores: []string{"ca:acme"}, TrustedIdentities: []string{"*"}, RegistryScopes: []string{"*"}}}}
 }
